@@ -318,7 +318,9 @@ pub fn fault(d: &D, which: usize) -> D {
         (_, 3) => {
             let mname = format!("MAC-{}", name.to_uppercase().replace(|c: char| !c.is_ascii_alphanumeric(), "-"));
             D {
-                text: format!("{mname} MACRO ::= BEGIN TYPE NOTATION ::= \"x\" VALUE NOTATION ::= value (VALUE INTEGER) END"),
+                // half of them defined by reference to another macro (X.680:1994 Annex J `macroreference`): OPERATION is
+                // the macro of another definition's name in sets that contain one, and of nobody otherwise
+                text: if (which / 5) % 2 == 1 { format!("{mname} MACRO ::= OPERATION") } else { format!("{mname} MACRO ::= BEGIN TYPE NOTATION ::= \"x\" VALUE NOTATION ::= value (VALUE INTEGER) END") },
                 name: mname,
                 kind: Kind::Macro,
                 shape: "fault".into(),
